@@ -509,7 +509,7 @@ fn main() {
     "only string-valued stored fields are highlighted (arrays are not generated)".into(),
     "the legacy snippet is judged with tags `**`, fragment size 120, one fragment (highlight.rs make_snippet)".into(),
   ];
-  let n = ctx.n(600, 20_000);
+  let n = ctx.n(600, 60_000);
   let sch = schema_json();
   // ---------------- directed minimal cases (deterministic; same oracle)
   ctx.run_cases("directed", 1, |_rng: &mut Rng, l: &mut Local, scratch| {
